@@ -511,6 +511,7 @@ loop:
 			}
 			var dummy Value
 			if iter.Next(&dummy) {
+				iter.Done()
 				// NB: Len may return -1 here in obscure cases.
 				err = fmt.Errorf("too many values to unpack (got %d, want %d)", Len(iterable), n)
 				break loop
